@@ -76,6 +76,9 @@ func (w *World) PointerText(o string) string {
 // RawContent is ordinary Git content committed at path p; with RawBig it is longer than the 1024-byte
 // pointer cutoff (the size of ordinary content is never an argument of a specification).
 func (w *World) RawContent(p string) []byte {
+	if t, ok := rawTwin[p]; ok {
+		p = t // the same ordinary bytes as that path's
+	}
 	s := "plain git content of " + p + "\n"
 	if w.RawBig {
 		return []byte(strings.Repeat(s, 1500/len(s)+1))
@@ -86,7 +89,17 @@ func (w *World) RawContent(p string) []byte {
 // that needs nested directories; every check is a process of its own).
 var pathDir = map[string]string{}
 
-func PathFile(p string) string { return pathDir[p] + p + ".bin" }
+// pathBase gives an abstract path another file name than its own (two paths with one base name in two
+// directories); rawTwin makes its ordinary content the same bytes as another path's.
+var pathBase = map[string]string{}
+var rawTwin = map[string]string{}
+
+func PathFile(p string) string {
+	if b, ok := pathBase[p]; ok {
+		return pathDir[p] + b
+	}
+	return pathDir[p] + p + ".bin"
+}
 
 func (w *World) logf(format string, a ...interface{}) {
 	w.Log = append(w.Log, fmt.Sprintf(format, a...))
